@@ -48,6 +48,7 @@ type World struct {
 	sc         *summaryCache
 	factCache  map[string]*KindFacts
 	floorCache map[string][2]any
+	fail       *failInfo
 }
 
 func goEnv() []string {
